@@ -82,6 +82,13 @@ func (f *fetcherScript) FetchKeys(ctx context.Context, reqs map[keyReq]spec.Time
 	}
 	f.asked = append(f.asked, cp)
 	if f.fail {
+		// a fetcher fails in its own ways - its own deadline among them - while the caller is still waiting
+		switch (len(f.name) + len(f.asked) + len(reqs)) % 3 {
+		case 0:
+			return nil, fmt.Errorf("scripted fetcher failure: %w", context.DeadlineExceeded)
+		case 1:
+			return nil, fmt.Errorf("scripted fetcher failure: %w", context.Canceled)
+		}
 		return nil, errors.New("scripted fetcher failure")
 	}
 	out := map[keyReq]keyRes{}
@@ -973,7 +980,11 @@ func c12KeyResponses(c *mon.Ctx, w *keyWorld, r *gen.Rand) {
 			b, _ := json.Marshal(desc)
 			c.NontrivialBytes(b)
 			f := &gmsl.DirectKeyFetcher{Client: client, IsLocalServerName: func(s spec.ServerName) bool { return s == "local.example" }, LocalPublicKey: spec.Base64Bytes(notary.Pub)}
+			reqsBefore := fmt.Sprint(reqs)
 			res, err := f.FetchKeys(context.Background(), reqs)
+			if after := fmt.Sprint(reqs); after != reqsBefore {
+				c.Failf("directfetcher:callers-request-map-modified", "DirectKeyFetcher.FetchKeys changed the request map it was given from %s to %s", reqsBefore, after)
+			}
 			c.Count("direct_fetches")
 			if err != nil {
 				c.Failf("directfetcher:error", "FetchKeys: %v", err)
@@ -1042,7 +1053,12 @@ func c12KeyResponses(c *mon.Ctx, w *keyWorld, r *gen.Rand) {
 			c.NontrivialBytes(b)
 			pc := &scriptedKeyClient{notary: map[string]func() ([]gmsl.ServerKeys, error){"notary.example": func() ([]gmsl.ServerKeys, error) { return objs, nil }}}
 			pf := &gmsl.PerspectiveKeyFetcher{PerspectiveServerName: "notary.example", PerspectiveServerKeys: map[gmsl.KeyID]ed25519.PublicKey{gmsl.KeyID(notary.KeyID): notary.Pub}, Client: pc}
-			res, err := pf.FetchKeys(context.Background(), map[keyReq]spec.Timestamp{{ServerName: "a.example", KeyID: "ed25519:k1"}: 0})
+			preqs := map[keyReq]spec.Timestamp{{ServerName: "a.example", KeyID: "ed25519:k1"}: 0, {ServerName: "b.example:8448", KeyID: "ed25519:k1"}: 5}
+			preqsBefore := fmt.Sprint(preqs)
+			res, err := pf.FetchKeys(context.Background(), preqs)
+			if after := fmt.Sprint(preqs); after != preqsBefore {
+				c.Failf("perspective:callers-request-map-modified", "PerspectiveKeyFetcher.FetchKeys changed the request map it was given (the key ring's list of what is still wanted) from %s to %s", preqsBefore, after)
+			}
 			c.Count("perspective_fetches")
 			if allOK && err != nil {
 				c.Failf("perspective:rejects-good-answer", "all %d objects are self-signed and notarised but FetchKeys fails: %v\n%v", nobj, err, objDesc)
